@@ -744,8 +744,9 @@ class Verifier:
             opts = ["ret"] + (["raise", "cancel"] if faults else [])
             c = opts[ctx.choose(len(opts), "await")] if len(opts) > 1 else "ret"
             if c == "ret":
-                v = Opaque(ctx.fresh(Val, "awaited"))
-                self.trace.append((f"await {describe(ev.payload[0])}", f"ret {v.t}"))
+                pl = getattr(ev.payload[0], "payload", None) if ev.kind == "Await" else None
+                v = pl if pl is not None else Opaque(ctx.fresh(Val, "awaited"))
+                self.trace.append((f"await {describe(ev.payload[0])}", f"ret {describe(v)}"))
                 return ("ret", v)
             env.fault_used = True
             e = ExcVal("UserError" if c == "raise" else "Cancelled", ident=("await", ctx.evseq), origin="env")
